@@ -671,6 +671,22 @@ func TestVerifDriver(t *testing.T) {
 		n := vEnvInt("VERIF_N", 300)
 		dec := func(s string) { do("bech32.Decode", M{"s": vInts([]byte(s))}) }
 		primingSeqs(r, dec, 9)
+		// Encode right after every kind of rejected Decode (and after a rejected Encode): what a failing call leaves
+		// behind must not reach the next string that is built
+		{
+			data := []byte{0xff}
+			ok, _ := Encode("test", []byte{1, 2, 3})
+			for k, bad := range []string{"test1\u212aq", "test1qq\xff", "test1q\u0161qqqqqq", ok[:len(ok)-1] + "b", "test1", "TEST1qqqqqq", "te st1qqqqqq", "1qqqqqq",
+				ok + "q", strings.Repeat("q", 91), "", ok[:5] + "\x80" + ok[6:], ok[:len(ok)-3] + "\xc3\xa9" + ok[len(ok)-1:]} {
+				dec(bad)
+				do("bech32.Encode", M{"hrp": vInts([]byte("test")), "data": vInts(append(append([]byte{}, data...), make([]byte, k%4)...))})
+				dec(bad)
+				dec(bad)
+				do("bech32.Encode", M{"hrp": vInts([]byte{'a', byte('a' + k)}), "data": vInts([]byte{byte(k), 0xff, byte(7 * k)})})
+				do("bech32.Encode", M{"hrp": vInts([]byte("T\u212a")), "data": vInts(data)}) // a rejected Encode
+				do("bech32.Encode", M{"hrp": vInts([]byte("test")), "data": vInts(data)})
+			}
+		}
 		// prefixes beyond every limit handed to Encode (with and without data)
 		for _, hl := range []int{83, 84, 85, 89, 90, 91, 92, 100, 255, 256, 1000, 70000} {
 			for _, dl := range []int{0, 1, 20} {
